@@ -149,6 +149,7 @@ type customDiceItem struct {
 type Context struct {
 	parser         *parser
 	subThreadDepth int
+	callDepth      int // 仅最外层上下文使用: 进行中的函数 / 计算值调用层数
 	Attrs          *ValueMap
 	UpCtx          *Context
 	// subThread      *Context // 用于执行子句
@@ -734,6 +735,25 @@ func (v *VMValue) ReadNativeObjectData() (*NativeObjectData, bool) {
 		return v.Value.(*NativeObjectData), true
 	}
 	return nil, false
+}
+
+// maxCallDepth 同时进行中的函数 / 计算值调用层数上限。有算力上限时每层 +100 的消耗已经限制了深度(30000 的上限约 300 层)；
+// 没有算力上限时只有这里能阻止无限递归耗尽 Go 的栈。
+// 注意 subThreadDepth 不能用来计数: 在外层作用域里找到的计算值以外层上下文执行，深度不增长。
+const maxCallDepth = 1000
+
+// enterCall 在最外层上下文上登记一次进行中的调用；超过上限时设置错误并返回 false
+func (ctx *Context) enterCall() (leave func(), ok bool) {
+	root := ctx
+	for root.UpCtx != nil {
+		root = root.UpCtx
+	}
+	if root.callDepth >= maxCallDepth {
+		ctx.Error = errors.New("调用层数过多")
+		return nil, false
+	}
+	root.callDepth++
+	return func() { root.callDepth-- }, true
 }
 
 // maxStringLength 拼接/模板得到的字符串的长度上限(字节)
@@ -1528,6 +1548,12 @@ func (v *VMValue) ComputedExecute(ctx *Context, detail *BufferSpan) *VMValue {
 	vm.GlobalValueLoadFunc = ctx.GlobalValueLoadFunc
 	vm.GlobalValueLoadOverwriteFunc = ctx.GlobalValueLoadOverwriteFunc
 	vm.subThreadDepth = ctx.subThreadDepth + 1
+	// 没有配置算力上限(默认)时，+100 的递归消耗挡不住无限递归: &x = x; x 会把 Go 的栈耗尽，整个进程被终止(无法 recover)
+	if leave, ok := ctx.enterCall(); !ok {
+		return nil
+	} else {
+		defer leave()
+	}
 	vm.UpCtx = ctx
 	vm.NumOpCount = opCountAdd(ctx.NumOpCount, 100)
 	ctx.NumOpCount = vm.NumOpCount // 防止无限递归
@@ -1623,6 +1649,11 @@ func (v *VMValue) FuncInvokeRaw(ctx *Context, params []*VMValue, useUpCtxLocal b
 	vm.GlobalValueLoadFunc = ctx.GlobalValueLoadFunc
 	vm.GlobalValueLoadOverwriteFunc = ctx.GlobalValueLoadOverwriteFunc
 	vm.subThreadDepth = ctx.subThreadDepth + 1
+	if leave, ok := ctx.enterCall(); !ok {
+		return nil
+	} else {
+		defer leave()
+	}
 	vm.UpCtx = ctx
 	vm.NumOpCount = opCountAdd(ctx.NumOpCount, 100) // 递归视为消耗 + 100
 	ctx.NumOpCount = vm.NumOpCount       // 防止无限递归
